@@ -33,6 +33,16 @@ ASSUME TAZero
 LayGen2 == LET R == RegSet(GenAS, 3, GenAS) IN {<<>>} \cup L1(R) \cup L2(R)
 LayGen3 == LayTop(GenAS, 3)
 LayMC   == LayTop(LemmaAS, LemmaML)
+\* layouts for the scripted-stream configurations: touching regions, a hole, a target ending in a hole
+LayC14  == { << <<0, 2>>, <<2, 3>> >>, << <<1, 3>>, <<5, 2>> >>, << <<0, 4>> >>, << <<2, 2>>, <<4, 2>>, <<7, 1>> >> }
+
+\* scripts of stream behaviours (C14): all scripts up to a length over the alphabet
+Alpha == {[b |-> "full"], [b |-> "zero"], [b |-> "eintr"], [b |-> "err"], [b |-> "short", k |-> 1], [b |-> "short", k |-> 2]}
+ScriptsNone == {}
+ScriptsUpTo(n) == UNION {[1 .. k -> Alpha] : k \in 0 .. n}
+Scripts2 == ScriptsUpTo(2)
+Scripts3 == ScriptsUpTo(3)
+Scripts4 == ScriptsUpTo(4)
 
 Emit == PrintT(<<"EDGE", ToJson([f |-> st, act |-> last', t |-> st'])>>)
 EmitInit == (last.op = "init") => PrintT(<<"INIT", ToJson([t |-> st, act |-> last])>>)
